@@ -64,7 +64,7 @@ func connectsQuiescent(dump string) (int, bool) {
 func init() {
 	vrt.Register(&vrt.Prop{
 		ID: "C19", Level: "exploration",
-		Rule: "case = a real loopback mesh of 2-6 parties x 1-4 connections per pair: leader Create first, then Join in a PRNG order with PRNG delays, all Connect calls concurrent with PRNG start delays; a verif hook at five points of p2p/network.go (before Accept, after the accepted hello, between need--/Broadcast and addPeer, before Dial, after the dial hello) logs the event order and injects 0-5 ms PRNG delays. " +
+		Rule: "case = a real loopback mesh of 2-6 parties x 1-4 connections per pair: leader Create first, then Join in a PRNG order with PRNG delays, all Connect calls concurrent with PRNG start delays (every 32nd mesh has one party start 6.5 s late - 3-12 s in thorough - and every 32nd stays idle that long before its connections are used); a verif hook at five points of p2p/network.go (before Accept, after the accepted hello, between need--/Broadcast and addPeer, before Dial, after the dial hello) logs the event order and injects 0-5 ms PRNG delays. " +
 			"Oracle: at the moment a party's own Connect returns nil, and again after all Connect calls returned, every party lists every other party exactly once with exactly numConns non-nil connections, and a unique token sent on i.Peers[j].Conns[k] arrives on j.Peers[i].Conns[k] and nowhere else, in both directions (exactly once, no loss, no cross-wiring). A Connect error is a violation; a quiescent deadlock (all Connect goroutines parked, no hook event for 6 s, confirmed by two goroutine dumps) is a violation, any other timeout inconclusive. Distinct = hash of the observed hook-event order.",
 		Assumptions: []string{"loopback TCP; the kernel's behaviour can be varied only in timing", "the leader's Create precedes every Join, as Join requires"},
 		NumCases: func(t string) int {
@@ -166,6 +166,7 @@ func runC19(cs *vrt.Case) {
 			return
 		}
 	}
+	var started atomic.Int64 // Connect calls entered (a late starter is not a deadlock)
 	errs := make([]error, P)
 	snaps := make([]string, P)
 	done := make(chan int, P)
@@ -173,9 +174,27 @@ func runC19(cs *vrt.Case) {
 	for i := range delays {
 		delays[i] = time.Duration(r.Intn(3000)) * time.Microsecond
 	}
+	// a few meshes have a late starter (one party calls Connect seconds after
+	// it joined) or stay idle for seconds before their connections are used
+	long := 6500 * time.Millisecond
+	if cs.Thorough() {
+		long = time.Duration(r.Range(3000, 12000)) * time.Millisecond
+	}
+	var idleBeforeUse time.Duration
+	switch cs.Idx % 32 {
+	case 5:
+		delays[r.Intn(P)] = long
+		desc["late_starter_ms"] = long.Milliseconds()
+		cs.Count("meshes_with_late_starter", 1)
+	case 11:
+		idleBeforeUse = long
+		desc["idle_before_use_ms"] = long.Milliseconds()
+		cs.Count("meshes_idle_before_use", 1)
+	}
 	for i := 0; i < P; i++ {
 		go func(i int) {
 			time.Sleep(delays[i])
+			started.Add(1)
 			errs[i] = nets[i].Connect()
 			if errs[i] == nil {
 				// what this party can see at the moment its own Connect
@@ -187,6 +206,7 @@ func runC19(cs *vrt.Case) {
 	}
 	finished := 0
 	lastEv := nEvents.Load()
+	_ = started.Load()
 	idle := 0
 	for finished < P {
 		select {
@@ -196,6 +216,9 @@ func runC19(cs *vrt.Case) {
 		case <-time.After(time.Second):
 			if ev := nEvents.Load(); ev != lastEv {
 				lastEv, idle = ev, 0
+				continue
+			}
+			if started.Load() < int64(P) {
 				continue
 			}
 			idle++
@@ -286,6 +309,9 @@ func runC19(cs *vrt.Case) {
 			cs.Violate("C19|missing-peer", fmt.Sprintf("party %d knows %d parties, the mesh has %d", i, len(seen), P), map[string]any{"case": desc})
 			return
 		}
+	}
+	if idleBeforeUse > 0 {
+		time.Sleep(idleBeforeUse)
 	}
 	// tokens: i -> j on connection k, both directions, exactly once
 	peerOf := func(nw *p2p.Network, id int) *p2p.Peer {
